@@ -8,6 +8,15 @@ package app_test
 // WithdrawMaturedLocks (the EndBlocker call), MsgSetRewardReceiverAddress, MsgForceUnlock.
 // Every state-changing call runs in a cache context that is written only on success.
 //
+// History classes (chosen per history, independent of each other and of the amount-unit / duration-base classes):
+//   - many-durations: 11..25 pairwise distinct durations (the accumulation tree of a denomination has fan-out 10, so
+//     its tree gets inner levels), most locks in one focus denomination, a lock per duration first, then whole
+//     (denomination, duration) buckets are drained again (begin-unlock in full or in parts, advance to the end
+//     times, unlock / withdraw; extend away).  The accumulation oracle queries every leaf boundary after every op.
+//   - +cl: locks of concentrated-liquidity share denominations cl/pool/<id>, created by the CL keeper
+//     (CreateFullRangePositionLocked / ...Unlocking), which x/lockup BURNS on withdrawal instead of paying out.
+//   - keeper tail (lockup_tail_test.go): oracle-only ops of the keeper API other modules call (synthetic locks, slash, ...).
+//
 // The ORACLE keeps its own shadow list of locks (plain Go, updated from the meaning of each successful
 // message) and after EVERY op recomputes from it everything the property talks about and compares with
 // what the keeper reports.  It shares nothing with the Lean model.
@@ -28,6 +37,7 @@ import (
 	sdk "github.com/cosmos/cosmos-sdk/types"
 
 	"github.com/osmosis-labs/osmosis/osmomath"
+	cltypes "github.com/osmosis-labs/osmosis/v31/x/concentrated-liquidity/types"
 	lockupkeeper "github.com/osmosis-labs/osmosis/v31/x/lockup/keeper"
 	lockuptypes "github.com/osmosis-labs/osmosis/v31/x/lockup/types"
 )
@@ -44,37 +54,72 @@ type shLock struct {
 }
 
 type lockupEnv struct {
-	h      *H
-	o      *Out
-	r      *rand.Rand
-	names  []string
-	addrs  map[string]sdk.AccAddress
-	nameOf map[string]string
-	denoms []string
-	durs   []int64
-	now    int64
-	shadow map[uint64]*shLock
-	funded map[string]map[string]int64
-	allowed string
+	h        *H
+	o        *Out
+	r        *rand.Rand
+	names    []string
+	addrs    map[string]sdk.AccAddress
+	nameOf   map[string]string
+	denoms   []string
+	durs     []int64
+	now      int64
+	shadow   map[uint64]*shLock
+	funded   map[string]map[string]int64
+	allowed  string
 	durSeen  map[int64]bool
 	timeSeen map[int64]bool
 	lastOp   string
 	K        osmomath.Int // per-history magnitude scale: every real amount is (shadow units) x K
+	// history classes (see runLockup)
+	class     string // "few-durations" | "many-durations", "+cl" appended when CL-share locks take part
+	many      bool   // > sumtree fan-out distinct durations, concentrated on the denomination `focus`
+	focus     string
+	clPools   map[string]uint64         // CL-share denomination "cl/pool/<id>" -> pool id (empty: no CL-share locks in this history)
+	durEver   map[int64]bool            // every duration a lock of this history ever had (exact values; durSeen is its +-1 closure)
+	target    *bucket                   // many-durations: the (denom, duration) bucket the generator is currently draining
+	fill      []int64                   // many-durations: durations not yet used for the focus denomination
+	hist      []string                  // op lines of the current history's transactions (replay of an oracle failure)
+	denomDurs map[string]map[int64]bool // denomination -> every duration a lock of it had in this history
+	splitIn   map[bucket]bool           // buckets in which a lock was split by a partial begin-unlock
+	// keeper tail (lockup_tail_test.go): synthetic locks
+	synth        map[uint64]*shSynth
+	synthDenoms  map[string]bool
+	synthCoded   map[string]map[int64]int64
+	synthCause   map[string]string
+	pendingCause string
+}
+
+// a (denomination, duration) bucket = one leaf of the denomination's accumulation tree
+type bucket struct {
+	denom string
+	dur   int64
+}
+
+func isCLDenom(dn string) bool {
+	return strings.HasPrefix(dn, cltypes.ConcentratedLiquidityTokenPrefix)
+}
+
+// amount unit of a denomination: K, except CL shares (their amount is the liquidity the CL module computed)
+func (e *lockupEnv) kOf(dn string) osmomath.Int {
+	if isCLDenom(dn) {
+		return osmomath.OneInt()
+	}
+	return e.K
 }
 
 func (e *lockupEnv) ctx() sdk.Context { return e.h.Ctx }
 
 // magnitude scaling: the shadow keeps int64 UNITS, the chain (and the op lines / observations) the REAL amounts units x K.
-func (e *lockupEnv) real(units int64) osmomath.Int { return e.K.MulRaw(units) }
+func (e *lockupEnv) real(dn string, units int64) osmomath.Int { return e.kOf(dn).MulRaw(units) }
 func (e *lockupEnv) coin(denom string, units int64) sdk.Coin {
-	return sdk.Coin{Denom: denom, Amount: e.real(units)} // not NewCoin: negative / zero amounts must reach ValidateBasic
+	return sdk.Coin{Denom: denom, Amount: e.real(denom, units)} // not NewCoin: negative / zero amounts must reach ValidateBasic
 }
 
 // units of a real amount; lockup only adds and subtracts amounts that are multiples of K, so must every observable be
-func (e *lockupEnv) units(x osmomath.Int, what string) int64 {
-	q, m := new(big.Int).QuoRem(x.BigInt(), e.K.BigInt(), new(big.Int))
+func (e *lockupEnv) units(dn string, x osmomath.Int, what string) int64 {
+	q, m := new(big.Int).QuoRem(x.BigInt(), e.kOf(dn).BigInt(), new(big.Int))
 	if m.Sign() != 0 || !q.IsInt64() {
-		e.o.Fail("amount-not-a-sum-of-locked-amounts:"+what, fmt.Sprintf("%s is not a (small) multiple of the history's amount unit %s", x, e.K))
+		e.o.Fail("amount-not-a-sum-of-locked-amounts:"+what, fmt.Sprintf("%s%s is not a (small) multiple of the history's amount unit %s", x, dn, e.kOf(dn)))
 		return -1
 	}
 	return q.Int64()
@@ -279,16 +324,33 @@ func (e *lockupEnv) shadowRefs() string {
 				fmt.Sprintf("%s/ONT/%s/%s/%d/%d", u, l.owner, l.denom, l.end, l.id))
 		}
 	}
+	// synthetic locks (keeper tail): four entries each, under the synthetic denomination and the SYNTHETIC lock's
+	// duration / end time / unlocking flag, pointing at the underlying lock
+	for id, sy := range e.synth {
+		l, ok := e.shadow[id]
+		if !ok {
+			continue
+		}
+		u := "0"
+		if sy.end != 0 {
+			u = "1"
+		}
+		out = append(out,
+			fmt.Sprintf("%s/NT/%s/%d/%d", u, sy.denom, sy.end, id),
+			fmt.Sprintf("%s/ND/%s/%d/%d", u, sy.denom, sy.dur, id),
+			fmt.Sprintf("%s/ONT/%s/%s/%d/%d", u, l.owner, sy.denom, sy.end, id),
+			fmt.Sprintf("%s/OND/%s/%s/%d/%d", u, l.owner, sy.denom, sy.dur, id))
+	}
 	sort.Strings(out)
 	return "ok " + strings.Join(out, " ")
 }
 
 func (e *lockupEnv) bal(owner, denom string) int64 {
-	return e.units(e.h.App.BankKeeper.GetBalance(e.ctx(), e.addrs[owner], denom).Amount, "balance")
+	return e.units(denom, e.h.App.BankKeeper.GetBalance(e.ctx(), e.addrs[owner], denom).Amount, "balance")
 }
 
 func (e *lockupEnv) modBal(denom string) int64 {
-	return e.units(e.h.App.BankKeeper.GetBalance(e.ctx(), e.h.App.AccountKeeper.GetModuleAddress(lockuptypes.ModuleName), denom).Amount, "module-balance")
+	return e.units(denom, e.h.App.BankKeeper.GetBalance(e.ctx(), e.h.App.AccountKeeper.GetModuleAddress(lockuptypes.ModuleName), denom).Amount, "module-balance")
 }
 
 func (e *lockupEnv) accum(denom string, d int64) osmomath.Int {
@@ -334,14 +396,18 @@ func (e *lockupEnv) queries(owner, denom string, d int64, ts int64) []lq {
 		{fmt.Sprintf("ownerlonger %s %d 0", owner, d), func() []uint64 { return lockIDs(k.GetAccountLockedLongerDuration(c, a, dd)) },
 			func() []uint64 { return e.sel(func(l *shLock) bool { return l.owner == owner && l.dur >= dk }) }, "query:byOwnerLongerDuration"},
 		{fmt.Sprintf("ownerlonger %s %d 1", owner, d), func() []uint64 { return lockIDs(k.GetAccountLockedLongerDurationNotUnlockingOnly(c, a, dd)) },
-			func() []uint64 { return e.sel(func(l *shLock) bool { return l.owner == owner && l.dur >= dk && !unl(l) }) }, "query:byOwnerLongerDurationNotUnlocking"},
+			func() []uint64 {
+				return e.sel(func(l *shLock) bool { return l.owner == owner && l.dur >= dk && !unl(l) })
+			}, "query:byOwnerLongerDurationNotUnlocking"},
 		{fmt.Sprintf("ownerduration %s %d", owner, d), func() []uint64 { return lockIDs(k.GetAccountLockedDuration(c, a, dd)) },
 			func() []uint64 { return e.sel(func(l *shLock) bool { return l.owner == owner && l.dur == dk }) }, "query:byOwnerDuration"},
 		{fmt.Sprintf("byownerdenom %s %s %d 0", owner, denom, d), func() []uint64 { return lockIDs(k.GetAccountLockedLongerDurationDenom(c, a, denom, dd)) },
 			func() []uint64 {
 				return e.sel(func(l *shLock) bool { return l.owner == owner && l.denom == denom && l.dur >= dk })
 			}, "query:byOwnerDenom"},
-		{fmt.Sprintf("byownerdenom %s %s %d 1", owner, denom, d), func() []uint64 { return lockIDs(k.GetAccountLockedLongerDurationDenomNotUnlockingOnly(c, a, denom, dd)) },
+		{fmt.Sprintf("byownerdenom %s %s %d 1", owner, denom, d), func() []uint64 {
+			return lockIDs(k.GetAccountLockedLongerDurationDenomNotUnlockingOnly(c, a, denom, dd))
+		},
 			func() []uint64 {
 				return e.sel(func(l *shLock) bool { return l.owner == owner && l.denom == denom && l.dur >= dk && !unl(l) })
 			}, "query:byOwnerDenomNotUnlocking"},
@@ -406,7 +472,7 @@ func (e *lockupEnv) oracle(op string) {
 		if l.recv != "" {
 			recv = l.recv
 		}
-		want := fmt.Sprintf("%d %s %d %d %s:%s %s", l.id, l.owner, l.dur, l.end, l.denom, e.real(l.amt), recv)
+		want := fmt.Sprintf("%d %s %d %d %s:%s %s", l.id, l.owner, l.dur, l.end, l.denom, e.real(l.denom, l.amt), recv)
 		if s := e.lockStr(got); s != want {
 			e.o.Fail("lockrecord:fields:after-"+op, fmt.Sprintf("got %q want %q", s, want))
 		}
@@ -424,26 +490,27 @@ func (e *lockupEnv) oracle(op string) {
 		if got := e.modBal(dn); got != sum {
 			e.o.Fail("modbal:after-"+op, fmt.Sprintf("denom %s module holds %d, live locks sum to %d", dn, got, sum))
 		}
+		if isCLDenom(dn) {
+			// CL shares are minted into the module account when the position is locked and burned when the lock is
+			// withdrawn: they exist nowhere but in live locks, and never reach an account
+			if sup := e.units(dn, e.h.App.BankKeeper.GetSupply(c, dn).Amount, "supply"); sup != sum {
+				e.o.Fail("clshares:supply-differs-from-locked:after-"+op, fmt.Sprintf("denom %s supply %d, live locks sum to %d%s", dn, sup, sum, e.histStr()))
+			}
+			for _, o := range append(append([]string{}, e.names...), "X") {
+				if got := e.bal(o, dn); got != 0 {
+					e.o.Fail("clshares:held-by-account:after-"+op, fmt.Sprintf("owner %s holds %d %s%s", o, got, dn, e.histStr()))
+				}
+			}
+			continue
+		}
 		for _, o := range e.names {
 			if got := e.bal(o, dn) + per[o]; got != e.funded[o][dn] {
 				e.o.Fail("conservation:after-"+op, fmt.Sprintf("owner %s denom %s balance+locked %d funded %d", o, dn, got, e.funded[o][dn]))
 			}
 		}
-		// accumulation: every duration of the history's closure, ±1, 0.
-		// RULE (verified against the code): a lock counts from creation until it is WITHDRAWN — beginning to
-		// unlock does not touch the accumulation store (only lock/unlockMaturedLockInternalLogic/ExtendLockup do).
-		for d := range e.durSeen {
-			var want int64
-			for _, l := range e.shadow {
-				if l.denom == dn && l.dur >= d {
-					want += l.amt
-				}
-			}
-			if got := e.accum(dn, d); !got.Equal(e.real(want)) {
-				e.o.Fail("accum:after-"+op, fmt.Sprintf("denom %s duration>=%d accumulation %s, live locks sum to %s", dn, d, got, e.real(want)))
-			}
-		}
 	}
+	e.accumOracle(op)
+	e.coinQueries(op)
 	// index, straight from the store
 	if got, ok := e.decodeRefs(); !ok {
 		e.o.Fail("index:undecodable-key:after-"+op, "")
@@ -499,7 +566,146 @@ func (e *lockupEnv) oracle(op string) {
 	}
 }
 
+// accumulation oracle.  RULE (verified against the code): a lock counts from creation until it is WITHDRAWN —
+// beginning to unlock does not touch the accumulation store (only lock/unlockMaturedLockInternalLogic/ExtendLockup do).
+// Query points, for EVERY denomination: every duration any lock of the history ever had (also the ones whose bucket
+// has been emptied since), each +-1ns, the midpoints between neighbouring durations, 0, -1 (uint64 wrap: above every
+// key), twice the maximum and MaxInt64.  The reference is a from-scratch sum over the shadow locks.  A panicking query
+// is a failing input of its own.
+func (e *lockupEnv) accumPoints() []int64 {
+	pts := map[int64]bool{0: true, -1: true, math.MaxInt64: true}
+	for d := range e.durSeen {
+		pts[d] = true
+	}
+	ever := sortedI64(e.durEver)
+	for i, d := range ever {
+		if i+1 < len(ever) {
+			pts[d+(ever[i+1]-d)/2] = true
+		}
+	}
+	if n := len(ever); n > 0 && ever[n-1] < math.MaxInt64/2 {
+		pts[2*ever[n-1]] = true
+	}
+	return sortedI64(pts)
+}
+
+func (e *lockupEnv) accumOracle(op string) {
+	pts := e.accumPoints()
+	for _, dn := range e.denoms {
+		// live locks of the denomination by duration, from scratch
+		live := map[int64]int64{}
+		for _, l := range e.shadow {
+			if l.denom == dn {
+				live[l.dur] += l.amt
+			}
+		}
+		for _, d := range pts {
+			var want int64
+			if d >= 0 {
+				for ld, a := range live {
+					if ld >= d {
+						want += a
+					}
+				}
+			}
+			var got osmomath.Int
+			if !catch(func() { got = e.accum(dn, d) }) {
+				e.o.Fail("accum:query-panicked:"+e.class, fmt.Sprintf("after %s: GetPeriodLocksAccumulation(%s, duration>=%d) panicked; live locks sum to %s%s", op, dn, d, e.real(dn, want), e.histStr()))
+				continue
+			}
+			if !got.Equal(e.real(dn, want)) {
+				e.o.Fail("accum:after-"+op, fmt.Sprintf("denom %s duration>=%d accumulation %s, live locks sum to %s%s", dn, d, got, e.real(dn, want), e.histStr()))
+			}
+		}
+	}
+	e.o.Count(fmt.Sprintf("accum.query-points.%s", bucketOf(len(pts), 10, 20, 40, 80)))
+}
+
+// coin-sum queries (store.go): what is locked / unlocking / unlockable, per account and for the module
+func (e *lockupEnv) coinQueries(op string) {
+	k := e.h.App.LockupKeeper
+	c := e.ctx()
+	now := e.now
+	sum := func(p func(l *shLock) bool) string {
+		m := map[string]int64{}
+		for _, l := range e.shadow {
+			if p(l) {
+				m[l.denom] += l.amt
+			}
+		}
+		var ds []string
+		for d := range m {
+			ds = append(ds, d)
+		}
+		sort.Strings(ds)
+		var out []string
+		for _, d := range ds {
+			if m[d] != 0 {
+				out = append(out, d+":"+e.real(d, m[d]).String())
+			}
+		}
+		if len(out) == 0 {
+			return "-"
+		}
+		return strings.Join(out, ",")
+	}
+	chk := func(key, what string, impl func() sdk.Coins, want string) {
+		var got sdk.Coins
+		if !catch(func() { got = impl() }) {
+			e.o.Fail(key+":panic", fmt.Sprintf("after %s: %s panicked%s", op, what, e.histStr()))
+			return
+		}
+		if g := e.coinsStr(got); g != want {
+			e.o.Fail(key, fmt.Sprintf("after %s: %s returned %s, matching locks hold %s%s", op, what, g, want, e.histStr()))
+		}
+	}
+	chk("coins:moduleLocked", "GetModuleLockedCoins", func() sdk.Coins { return k.GetModuleLockedCoins(c) },
+		sum(func(l *shLock) bool { return l.end == 0 || l.end > now }))
+	for _, o := range append(append([]string{}, e.names...), "X") {
+		o := o
+		a := e.addrs[o]
+		chk("coins:accountUnlockable", "GetAccountUnlockableCoins("+o+")", func() sdk.Coins { return k.GetAccountUnlockableCoins(c, a) },
+			sum(func(l *shLock) bool { return l.owner == o && l.end != 0 && l.end <= now }))
+		chk("coins:accountUnlocking", "GetAccountUnlockingCoins("+o+")", func() sdk.Coins { return k.GetAccountUnlockingCoins(c, a) },
+			sum(func(l *shLock) bool { return l.owner == o && l.end != 0 && l.end > now }))
+		chk("coins:accountLocked", "GetAccountLockedCoins("+o+")", func() sdk.Coins { return k.GetAccountLockedCoins(c, a) },
+			sum(func(l *shLock) bool { return l.owner == o && (l.end == 0 || l.end > now) }))
+	}
+}
+
+func bucketOf(n int, bounds ...int) string {
+	lo := 0
+	for _, b := range bounds {
+		if n < b {
+			return fmt.Sprintf("%d..%d", lo, b-1)
+		}
+		lo = b
+	}
+	return fmt.Sprintf("%d+", lo)
+}
+
+// histStr: the transactions of the current history (replay of a failing input), newest last, bounded.
+func (e *lockupEnv) histStr() string {
+	var b strings.Builder
+	b.WriteString(" | history, newest transaction first: ")
+	for i := len(e.hist) - 1; i >= 0 && i >= len(e.hist)-60; i-- {
+		b.WriteString(strings.TrimPrefix(e.hist[i], "lockup "))
+		b.WriteString(" ; ")
+	}
+	return b.String()
+}
+
+// accumStr: the accumulation query as an observation ("panic" when the sum tree panics)
+func (e *lockupEnv) accumStr(dn string, d int64) string {
+	out := "panic"
+	catch(func() { out = "ok " + e.accum(dn, d).String() })
+	return out
+}
+
 func (e *lockupEnv) noteDur(d int64) {
+	if d >= 0 {
+		e.durEver[d] = true
+	}
 	for _, x := range []int64{d - 1, d, d + 1} {
 		if x >= 0 {
 			e.durSeen[x] = true
@@ -529,13 +735,13 @@ func (e *lockupEnv) observe(k int) {
 		}
 		switch e.r.Intn(7) {
 		case 0:
-			e.o.Emit("lockup modbal "+dn, fmt.Sprintf("ok %s", e.real(e.modBal(dn))), true)
+			e.o.Emit("lockup modbal "+dn, fmt.Sprintf("ok %s", e.real(dn, e.modBal(dn))), true)
 		case 1:
 			if o != "X" {
-				e.o.Emit("lockup bal "+o+" "+dn, fmt.Sprintf("ok %s", e.real(e.bal(o, dn))), true)
+				e.o.Emit("lockup bal "+o+" "+dn, fmt.Sprintf("ok %s", e.real(dn, e.bal(o, dn))), true)
 			}
 		case 2, 3:
-			e.o.Emit(fmt.Sprintf("lockup accum %s %d", dn, d), "ok "+e.accum(dn, d).String(), true)
+			e.o.Emit(fmt.Sprintf("lockup accum %s %d", dn, d), e.accumStr(dn, d), true)
 		default:
 			qs := e.queries(o, dn, d, t)
 			q := qs[e.r.Intn(len(qs))]
@@ -605,10 +811,10 @@ func (e *lockupEnv) exportImport() {
 	preAcc := map[string]string{}
 	for _, dn := range e.denoms {
 		for d := range e.durSeen {
-			preAcc[fmt.Sprintf("%s/%d", dn, d)] = e.accum(dn, d).String()
+			preAcc[fmt.Sprintf("%s|%d", dn, d)] = e.accumStr(dn, d)
 		}
 	}
-	preEmpty := e.accum("", 0)
+	preEmpty := e.accumStr("", 0)
 	var bz []byte
 	if !catch(func() { bz = cdc.MustMarshalJSON(k.ExportGenesis(e.ctx())) }) {
 		o.Emit("lockup exportimport", "panic", true)
@@ -663,19 +869,19 @@ func (e *lockupEnv) exportImport() {
 	for key, v := range preAcc {
 		var dn string
 		var d int64
-		parts := strings.SplitN(key, "/", 2)
+		parts := strings.SplitN(key, "|", 2)
 		dn = parts[0]
 		fmt.Sscan(parts[1], &d)
-		if got := e.accum(dn, d).String(); got != v {
+		if got := e.accumStr(dn, d); got != v {
 			o.Fail("lockup:export-import:accumulation", fmt.Sprintf("denom %s duration>=%d before %s after %s", dn, d, v, got))
 		}
 	}
 	// the accumulation tree of the non-denomination "" (F6) is not rebuilt: recorded, not a property failure
-	if post := e.accum("", 0); !post.Equal(preEmpty) {
+	if post := e.accumStr("", 0); post != preEmpty {
 		o.Count("exportimport.empty-denom-accum-dropped")
 	}
 	e.oracle("exportimport")
-	o.Emit("lockup accumempty 0", "ok "+e.accum("", 0).String(), true)
+	o.Emit("lockup accumempty 0", e.accumStr("", 0), true)
 	o.Emit("lockup params", e.paramsStr(), true)
 	e.dump()
 	e.observe(4)
@@ -689,8 +895,93 @@ func (e *lockupEnv) randLock(p func(l *shLock) bool) *shLock {
 	return e.shadow[ids[e.r.Intn(len(ids))]]
 }
 
+func pickWeighted(r *rand.Rand, names []string, w []int) string {
+	tot := 0
+	for _, x := range w {
+		tot += x
+	}
+	x := r.Intn(tot)
+	for i, wi := range w {
+		if x < wi {
+			return names[i]
+		}
+		x -= wi
+	}
+	return names[len(names)-1]
+}
+
+// live locks per (denomination, duration) bucket
+func (e *lockupEnv) buckets() map[bucket]int {
+	out := map[bucket]int{}
+	for _, l := range e.shadow {
+		out[bucket{l.denom, l.dur}]++
+	}
+	return out
+}
+
+// many-durations histories drain one bucket after the other: the target is a non-empty bucket, mostly of the focus denomination
+func (e *lockupEnv) retarget() {
+	if !e.many || len(e.fill) > 0 {
+		return
+	}
+	bs := e.buckets()
+	if e.target != nil && bs[*e.target] > 0 {
+		return
+	}
+	e.target = nil
+	var cands, focus []bucket
+	for b := range bs {
+		cands = append(cands, b)
+		if b.denom == e.focus {
+			focus = append(focus, b)
+		}
+	}
+	if len(focus) > 0 && e.r.Intn(5) != 0 {
+		cands = focus
+	}
+	if len(cands) == 0 {
+		return
+	}
+	sort.Slice(cands, func(i, j int) bool {
+		if cands[i].denom != cands[j].denom {
+			return cands[i].denom < cands[j].denom
+		}
+		return cands[i].dur < cands[j].dur
+	})
+	b := cands[e.r.Intn(len(cands))]
+	e.target = &b
+}
+
+// a lock of the target bucket satisfying p (nil: none, or no target)
+func (e *lockupEnv) targetLock(p func(l *shLock) bool) *shLock {
+	if e.target == nil {
+		return nil
+	}
+	return e.randLock(func(l *shLock) bool { return l.denom == e.target.denom && l.dur == e.target.dur && p(l) })
+}
+
 func (e *lockupEnv) advance() {
 	r := e.r
+	if e.target != nil && r.Intn(2) == 0 {
+		// the whole target bucket is unlocking: go to (or 1ns before) the time its last lock matures
+		all, last := true, int64(0)
+		for _, l := range e.shadow {
+			if l.denom == e.target.denom && l.dur == e.target.dur {
+				if l.end == 0 {
+					all = false
+				} else if l.end > last {
+					last = l.end
+				}
+			}
+		}
+		if all && last > e.now && last < math.MaxInt64-2*(e.durs[len(e.durs)-1]+int64(time.Minute)) {
+			e.now = last - int64(r.Intn(8)/7)
+			e.h.Ctx = e.h.Ctx.WithBlockTime(tm(e.now))
+			e.noteTime(e.now)
+			e.o.Count("advance.to-end-of-target-bucket")
+			return
+		}
+	}
 	switch x := r.Intn(20); {
 	case x < 5: // same block time
 	case x < 7:
@@ -752,7 +1043,14 @@ func runLockup(t *testing.T, seed int64, n int, dir string) {
 		e.shadow = map[uint64]*shLock{}
 		e.funded = map[string]map[string]int64{}
 		e.durSeen = map[int64]bool{0: true}
+		e.durEver = map[int64]bool{}
 		e.timeSeen = map[int64]bool{}
+		e.hist = nil
+		e.synth = nil
+		e.target = nil
+		e.denomDurs = map[string]map[int64]bool{}
+		e.splitIn = map[bucket]bool{}
+		e.denoms = []string{"bar", "foo", "uosmo"}
 		// magnitude classes (per history): amount unit K and a base added to the five durations
 		e.K = osmomath.OneInt()
 		kclass := "1"
@@ -789,17 +1087,92 @@ func runLockup(t *testing.T, seed int64, n int, dir string) {
 		}
 		o.Count("class.duration-base." + dclass)
 		e.durs = []int64{dbase + int64(2*time.Second), dbase + int64(5*time.Second), dbase + int64(5*time.Second) + 1, dbase + int64(12*time.Second), dbase + int64(40*time.Second)}
+		// history class "many-durations": 11..25 pairwise distinct durations (more than the accumulation tree's fan-out,
+		// so that the tree of the focus denomination gets inner levels), most locks in ONE denomination, every duration
+		// used early, then whole (denomination, duration) buckets are drained again: begin-unlock (full or in parts that
+		// sum to the total), time advance to the end times, withdraw — and extended away.
+		e.many = r.Intn(100) < 35
+		e.class = "few-durations"
+		e.focus = ""
+		e.fill = nil
+		if e.many {
+			e.class = "many-durations"
+			e.focus = e.denoms[r.Intn(3)]
+			nd := 11 + r.Intn(15)
+			seen := map[int64]bool{}
+			for _, d := range e.durs {
+				seen[d] = true
+			}
+			for len(e.durs) < nd {
+				var d int64
+				switch r.Intn(5) {
+				case 0: // 1ns next to an existing one
+					d = e.durs[r.Intn(len(e.durs))] + int64(r.Intn(2))*2 - 1
+				case 1: // whole seconds
+					d = dbase + int64(1+r.Intn(60))*int64(time.Second)
+				default:
+					d = dbase + int64(1+r.Intn(60000))*int64(time.Millisecond) + int64(r.Intn(3))
+				}
+				if d > dbase && !seen[d] {
+					seen[d] = true
+					e.durs = append(e.durs, d)
+				}
+			}
+			sort.Slice(e.durs, func(i, j int) bool { return e.durs[i] < e.durs[j] })
+			e.fill = append([]int64{}, e.durs...)
+			switch r.Intn(3) { // order in which the tree's leaves are created: ascending, descending, shuffled
+			case 0:
+			case 1:
+				sort.Slice(e.fill, func(i, j int) bool { return e.fill[i] > e.fill[j] })
+			default:
+				r.Shuffle(len(e.fill), func(i, j int) { e.fill[i], e.fill[j] = e.fill[j], e.fill[i] })
+			}
+			o.Count(fmt.Sprintf("class.many-durations.distinct-durations.%s", bucketOf(len(e.durs), 11, 16, 21)))
+		}
 		for _, d := range e.durs {
 			e.noteDur(d)
 		}
 		e.now = int64(1_700_000_000)*int64(time.Second) + int64(r.Intn(1000))
 		h.Ctx = h.Ctx.WithBlockTime(tm(e.now))
+		// history class "+cl": locks of concentrated-liquidity share denominations cl/pool/<id>, created the way the chain
+		// does (full-range position whose minted shares are locked by the CL keeper through CreateLockNoSend; the variant
+		// that starts unlocking at once is the balancer->CL migration path).  Such shares are burned, not paid out.
+		e.clPools = map[string]uint64{}
+		if r.Intn(100) < 35 {
+			e.class += "+cl"
+			for i := 0; i < 1+r.Intn(2); i++ {
+				pool := h.PrepareConcentratedPoolWithCoins("eth", "usdc")
+				dn := cltypes.GetConcentratedLockupDenomFromPoolId(pool.GetId())
+				if !isCLDenom(dn) {
+					t.Fatalf("CL share denomination %q without the CL prefix", dn)
+				}
+				e.clPools[dn] = pool.GetId()
+				e.denoms = append(e.denoms, dn)
+			}
+			sort.Strings(e.denoms)
+			if e.many && r.Intn(3) == 0 {
+				cl := []string{}
+				for _, dn := range e.denoms {
+					if isCLDenom(dn) {
+						cl = append(cl, dn)
+					}
+				}
+				e.focus = cl[r.Intn(len(cl))]
+			}
+		}
+		o.Count("class.history." + e.class)
+		if e.many {
+			o.Count("class.many-durations.focus." + map[bool]string{false: "ordinary-denom", true: "cl-share-denom"}[isCLDenom(e.focus)])
+		}
 		var fund []string
 		for _, nm := range e.names {
 			e.funded[nm] = map[string]int64{}
 			for _, dn := range e.denoms {
+				if isCLDenom(dn) {
+					continue // nobody ever holds CL shares
+				}
 				amt := int64(0)
-				if r.Intn(8) != 0 {
+				if r.Intn(8) != 0 || dn == e.focus {
 					amt = int64(200 + r.Intn(3000))
 				}
 				if amt > 0 {
@@ -807,7 +1180,7 @@ func runLockup(t *testing.T, seed int64, n int, dir string) {
 				}
 				// whatever genesis gave the account counts as funding
 				e.funded[nm][dn] = e.bal(nm, dn)
-				fund = append(fund, fmt.Sprintf("%s %s %s", nm, dn, e.real(e.funded[nm][dn])))
+				fund = append(fund, fmt.Sprintf("%s %s %s", nm, dn, e.real(dn, e.funded[nm][dn])))
 			}
 		}
 		e.allowed = "-"
@@ -847,19 +1220,27 @@ func runLockup(t *testing.T, seed int64, n int, dir string) {
 			}
 		}
 		hist := 25 + r.Intn(70)
+		if e.many {
+			hist = len(e.durs) + 40 + r.Intn(50)
+		}
 		for step := 0; step < hist && done < n; step++ {
 			if step > 2 && r.Intn(10) == 0 {
 				e.exportImport()
 			}
 			done++
+			e.retarget()
 			e.advance()
 			now := e.now
 			owner := e.names[r.Intn(3)]
 			if r.Intn(25) == 0 {
 				owner = "X"
 			}
-			dn := e.denoms[r.Intn(3)]
+			dn := e.denoms[r.Intn(len(e.denoms))]
+			if e.many && r.Intn(10) < 7 {
+				dn = e.focus
+			}
 			var line, obs, opk string
+			bucketsBefore := e.buckets()
 			before := map[string]int64{}
 			for _, nm := range e.names {
 				for _, d := range e.denoms {
@@ -868,11 +1249,89 @@ func runLockup(t *testing.T, seed int64, n int, dir string) {
 			}
 			released := []*shLock{} // locks whose coins this op returned
 			forced := false
-			switch x := r.Intn(100); {
-			case x < 30: // MsgLockTokens
-				opk = "lock"
+			// operation mix; many-durations histories first create a lock per duration, then lean towards draining
+			weights := []int{30, 8, 10, 20, 4, 10, 8, 4, 6}
+			if e.many {
+				weights = []int{14, 4, 8, 30, 3, 14, 17, 3, 7}
+				if len(e.fill) > 0 {
+					weights = []int{85, 2, 1, 4, 0, 2, 3, 1, 2}
+				}
+			}
+			opk = pickWeighted(r, []string{"lock", "addtolock", "extend", "beginunlock", "beginunlockall", "unlock", "withdraw", "setreceiver", "forceunlock"}, weights)
+			if opk == "lock" && isCLDenom(dn) && r.Intn(8) != 0 {
+				opk = "cllock" // the only way CL shares get locked; MsgLockTokens of a CL denomination (nobody holds any) is tried rarely
+			}
+			switch opk {
+			case "cllock": // ConcentratedLiquidityKeeper.CreateFullRangePositionLocked / ...Unlocking
 				dur := e.durs[r.Intn(len(e.durs))]
+				if e.many && dn == e.focus && len(e.fill) > 0 {
+					dur, e.fill = e.fill[0], e.fill[1:]
+				}
+				e.noteDur(dur)
+				unlocking := r.Intn(5) == 0
+				tok := int64(1000 + r.Intn(300000))
+				if r.Intn(12) == 0 {
+					tok = int64(r.Intn(3)) // no liquidity / next to none: the call fails
+				}
+				coins := sdk.NewCoins(sdk.NewInt64Coin("eth", tok+int64(r.Intn(50))), sdk.NewInt64Coin("usdc", tok+int64(r.Intn(50))))
+				if owner != "X" { // the stranger has nothing to provide: the call fails
+					h.FundAcc(e.addrs[owner], coins)
+				}
+				var id uint64
+				var shares sdk.Coins
+				ok := e.runTx(func(c sdk.Context) (err error) {
+					if unlocking {
+						_, id, err = h.App.ConcentratedLiquidityKeeper.CreateFullRangePositionUnlocking(c, e.clPools[dn], e.addrs[owner], coins, time.Duration(dur))
+					} else {
+						_, id, err = h.App.ConcentratedLiquidityKeeper.CreateFullRangePositionLocked(c, e.clPools[dn], e.addrs[owner], coins, time.Duration(dur))
+					}
+					if err != nil {
+						return err
+					}
+					l, lerr := k.GetLockByID(c, id)
+					if lerr != nil {
+						return lerr
+					}
+					if len(l.Coins) != 1 { // liquidity below one share: a lock without coins; not a lock the property talks about
+						return fmt.Errorf("no shares")
+					}
+					shares = l.Coins
+					return nil
+				})
+				u := 0
+				if unlocking {
+					u = 1
+				}
+				if !ok {
+					// the model is told the shares the CL module minted; none were
+					line = fmt.Sprintf("lockup cllock %d %s %d %s:0 %d", now, owner, dur, dn, u)
+					obs = "err"
+					break
+				}
+				line = fmt.Sprintf("lockup cllock %d %s %d %s %d", now, owner, dur, e.coinsStr(shares), u)
+				obs = fmt.Sprintf("ok %d", id)
+				if shares[0].Denom != dn || id <= lastID {
+					o.Fail("cllock:wrong-denom-or-id-reused", line)
+				}
+				if _, exists := e.shadow[id]; exists {
+					o.Fail("cllock:existing-lock-reused", line)
+				}
+				sl := &shLock{id: id, owner: owner, dur: dur, denom: dn, amt: e.units(dn, shares[0].Amount, "cl-shares")}
+				if unlocking {
+					sl.end, sl.begin = now+dur, now
+					e.noteTime(sl.end)
+				}
+				e.shadow[id] = sl
+				o.Count("cllock." + map[bool]string{false: "locked", true: "unlocking"}[unlocking])
+			case "lock": // MsgLockTokens
+				dur := e.durs[r.Intn(len(e.durs))]
+				if e.many && dn == e.focus && len(e.fill) > 0 {
+					dur, e.fill = e.fill[0], e.fill[1:]
+				}
 				amt := int64(1 + r.Intn(300))
+				if e.many {
+					amt = int64(1 + r.Intn(40))
+				}
 				if r.Intn(15) == 0 {
 					amt = int64(r.Intn(5000))
 				}
@@ -915,8 +1374,7 @@ func runLockup(t *testing.T, seed int64, n int, dir string) {
 					e.shadow[resp.ID] = &shLock{id: resp.ID, owner: owner, dur: dur, denom: dn, amt: amt}
 					o.Count("lock.create")
 				}
-			case x < 38: // keeper AddTokensToLockByID (same denom: its callers' contract)
-				opk = "addtolock"
+			case "addtolock": // keeper AddTokensToLockByID (same denom: its callers' contract)
 				l := e.randLock(func(l *shLock) bool { return true })
 				id := uint64(r.Intn(int(lastID) + 2))
 				ldn := dn
@@ -930,7 +1388,7 @@ func runLockup(t *testing.T, seed int64, n int, dir string) {
 					ldn = sl.denom
 				}
 				amt := int64(1 + r.Intn(200))
-				line = fmt.Sprintf("lockup addtolock %d %d %s %s %s", now, id, own, ldn, e.real(amt))
+				line = fmt.Sprintf("lockup addtolock %d %d %s %s %s", now, id, own, ldn, e.real(ldn, amt))
 				ok := e.runTx(func(c sdk.Context) error {
 					_, err := k.AddTokensToLockByID(c, id, e.addrs[own], e.coin(ldn, amt))
 					return err
@@ -949,8 +1407,7 @@ func runLockup(t *testing.T, seed int64, n int, dir string) {
 				} else {
 					o.Fail("addtolock:unknown-lock-accepted", line)
 				}
-			case x < 48: // MsgExtendLockup
-				opk = "extend"
+			case "extend": // MsgExtendLockup
 				l := e.randLock(func(l *shLock) bool { return r.Intn(6) == 0 || l.end == 0 })
 				id := uint64(r.Intn(int(lastID) + 2))
 				own := owner
@@ -992,9 +1449,11 @@ func runLockup(t *testing.T, seed int64, n int, dir string) {
 				} else {
 					o.Fail("extend:unknown-lock-accepted", line)
 				}
-			case x < 68: // MsgBeginUnlocking
-				opk = "beginunlock"
+			case "beginunlock": // MsgBeginUnlocking
 				l := e.randLock(func(l *shLock) bool { return r.Intn(8) == 0 || l.end == 0 })
+				if tl := e.targetLock(func(l *shLock) bool { return l.end == 0 }); tl != nil && r.Intn(10) < 8 {
+					l = tl
+				}
 				id := uint64(r.Intn(int(lastID) + 2))
 				own := owner
 				coins := sdk.Coins{}
@@ -1037,25 +1496,25 @@ func runLockup(t *testing.T, seed int64, n int, dir string) {
 					o.Fail("beginunlock:accepted-for-wrong-lock", line)
 					break
 				}
-				if len(coins) == 0 || (coins[0].Denom == sl.denom && coins[0].Amount.Equal(e.real(sl.amt))) {
+				if len(coins) == 0 || (coins[0].Denom == sl.denom && coins[0].Amount.Equal(e.real(sl.denom, sl.amt))) {
 					if resp.UnlockingLockID != id {
 						o.Fail("beginunlock:full-unlock-changed-id", line)
 					}
 					sl.end, sl.begin = now+sl.dur, now
 					o.Count("beginunlock.full")
 				} else {
-					x := e.units(coins[0].Amount, "request")
+					x := e.units(coins[0].Denom, coins[0].Amount, "request")
 					if coins[0].Denom != sl.denom || x <= 0 || x > sl.amt || resp.UnlockingLockID <= lastID {
 						o.Fail("beginunlock:bad-partial-accepted", line)
 						break
 					}
 					sl.amt -= x
 					e.shadow[resp.UnlockingLockID] = &shLock{id: resp.UnlockingLockID, owner: sl.owner, dur: sl.dur, end: now + sl.dur, begin: now, denom: sl.denom, amt: x, recv: sl.recv}
+					e.splitIn[bucket{sl.denom, sl.dur}] = true
 					o.Count("beginunlock.split")
 				}
 				e.noteTime(now + sl.dur)
-			case x < 72: // MsgBeginUnlockingAll
-				opk = "beginunlockall"
+			case "beginunlockall": // MsgBeginUnlockingAll
 				line = fmt.Sprintf("lockup beginunlockall %d %s", now, owner)
 				msg := &lockuptypes.MsgBeginUnlockingAll{Owner: e.addrs[owner].String()}
 				ok := msg.ValidateBasic() == nil && e.runTx(func(c sdk.Context) error { _, err := ms.BeginUnlockingAll(c, msg); return err })
@@ -1070,9 +1529,11 @@ func runLockup(t *testing.T, seed int64, n int, dir string) {
 						e.noteTime(sl.end)
 					}
 				}
-			case x < 82: // UnlockMaturedLock
-				opk = "unlock"
+			case "unlock": // UnlockMaturedLock
 				l := e.randLock(func(l *shLock) bool { return r.Intn(8) == 0 || l.end != 0 })
+				if tl := e.targetLock(func(l *shLock) bool { return l.end != 0 && (l.end <= now || r.Intn(4) == 0) }); tl != nil && r.Intn(10) < 8 {
+					l = tl
+				}
 				id := uint64(r.Intn(int(lastID) + 2))
 				if l != nil {
 					id = l.id
@@ -1090,8 +1551,7 @@ func runLockup(t *testing.T, seed int64, n int, dir string) {
 				} else {
 					o.Fail("unlock:unknown-lock-accepted", line)
 				}
-			case x < 90: // WithdrawMaturedLocks (EndBlocker)
-				opk = "withdraw"
+			case "withdraw": // WithdrawMaturedLocks (EndBlocker)
 				num := []int{0, 1, 2, 1000}[r.Intn(4)]
 				line = fmt.Sprintf("lockup withdraw %d %d", now, num)
 				ok := e.runTx(func(c sdk.Context) error { k.WithdrawMaturedLocks(c, num); return nil })
@@ -1132,8 +1592,7 @@ func runLockup(t *testing.T, seed int64, n int, dir string) {
 					}
 				}
 				o.Count(fmt.Sprintf("withdraw.released.%d", min(len(released), 3)))
-			case x < 94: // MsgSetRewardReceiverAddress
-				opk = "setreceiver"
+			case "setreceiver": // MsgSetRewardReceiverAddress
 				l := e.randLock(func(l *shLock) bool { return true })
 				id := uint64(r.Intn(int(lastID) + 2))
 				own := owner
@@ -1161,7 +1620,6 @@ func runLockup(t *testing.T, seed int64, n int, dir string) {
 					o.Fail("setreceiver:accepted-for-wrong-lock", line)
 				}
 			default: // MsgForceUnlock
-				opk = "forceunlock"
 				l := e.randLock(func(l *shLock) bool { return e.allowed == "-" || r.Intn(5) == 0 || l.owner == e.allowed })
 				id := uint64(r.Intn(int(lastID) + 2))
 				own := owner
@@ -1197,12 +1655,12 @@ func runLockup(t *testing.T, seed int64, n int, dir string) {
 					o.Fail("forceunlock:accepted-without-authority", line)
 					break
 				}
-				if len(coins) == 0 || coins[0].Amount.Equal(e.real(sl.amt)) {
+				if len(coins) == 0 || coins[0].Amount.Equal(e.real(sl.denom, sl.amt)) {
 					released = append(released, sl)
 					delete(e.shadow, id)
 					o.Count("forceunlock.full")
 				} else {
-					x := e.units(coins[0].Amount, "request")
+					x := e.units(coins[0].Denom, coins[0].Amount, "request")
 					sl.amt -= x
 					released = append(released, &shLock{id: 0, owner: sl.owner, denom: sl.denom, amt: x, end: sl.end, dur: sl.dur})
 					o.Count("forceunlock.partial")
@@ -1210,7 +1668,38 @@ func runLockup(t *testing.T, seed int64, n int, dir string) {
 			}
 			e.lastOp = opk
 			o.Emit(line, obs, true)
+			e.hist = append(e.hist, line+" => "+obs)
 			o.Count("op." + opk + "." + strings.Fields(obs)[0])
+			// input distribution: buckets (leaves of a denomination's accumulation tree) that this transaction emptied, and
+			// whether that tree has inner levels (more distinct durations than the fan-out ever used for the denomination)
+			for _, l := range e.shadow {
+				if e.denomDurs[l.denom] == nil {
+					e.denomDurs[l.denom] = map[int64]bool{}
+				}
+				e.denomDurs[l.denom][l.dur] = true
+			}
+			if obs != "err" {
+				after := e.buckets()
+				for b, c := range bucketsBefore {
+					if c > 0 && after[b] == 0 {
+						cls := "ordinary-denom"
+						if isCLDenom(b.denom) {
+							cls = "cl-share-denom"
+						}
+						o.Count("bucket-emptied.by-" + opk + "." + cls)
+						if len(e.denomDurs[b.denom]) > 10 {
+							o.Count("bucket-emptied.tree-has-inner-levels." + cls)
+						}
+						if c > 1 {
+							o.Count("bucket-emptied.several-locks-at-once")
+						}
+						if e.splitIn[b] {
+							o.Count("bucket-emptied.unlocked-in-parts")
+							delete(e.splitIn, b)
+						}
+					}
+				}
+			}
 			if nl := k.GetLastLockID(h.Ctx); nl > lastID {
 				lastID = nl
 			}
@@ -1218,7 +1707,11 @@ func runLockup(t *testing.T, seed int64, n int, dir string) {
 			if len(released) > 0 {
 				exp := map[string]int64{}
 				for _, sl := range released {
-					exp[sl.owner+"/"+sl.denom] += sl.amt
+					if !isCLDenom(sl.denom) { // CL shares are burned, nobody receives them
+						exp[sl.owner+"/"+sl.denom] += sl.amt
+					} else {
+						o.Count("released.cl-shares-burned.by-" + opk)
+					}
 					if !forced && (sl.end == 0 || now < sl.end || sl.end != sl.begin+sl.dur) {
 						o.Fail("early-unlock:"+opk, fmt.Sprintf("%s released lock %d at %d, unlock start %d + duration %d", line, sl.id, now, sl.begin, sl.dur))
 					}
@@ -1250,9 +1743,9 @@ func runLockup(t *testing.T, seed int64, n int, dir string) {
 			e.oracle(opk)
 			// F6 observation (not part of C06): accumulation store of denom ""
 			if opk == "addtolock" && obs == "ok" {
-				v := e.accum("", 0)
-				o.Emit("lockup accumempty 0", "ok "+v.String(), true)
-				if v.IsPositive() {
+				v := e.accumStr("", 0)
+				o.Emit("lockup accumempty 0", v, true)
+				if v != "panic" && v != "ok 0" {
 					f6Seen++
 				}
 			}
@@ -1260,6 +1753,10 @@ func runLockup(t *testing.T, seed int64, n int, dir string) {
 			if step%9 == 8 || step == hist-1 || done == n {
 				e.dump()
 			}
+		}
+		// oracle-only tail over the keeper API other modules use (synthetic locks, slashing, keeper force unlock, rebuilds)
+		if r.Intn(100) < 60 {
+			e.keeperTail(6+r.Intn(10), &lastID, ms)
 		}
 	}
 	o.Close(map[string]any{"f6_addtolock_ok": f6Adds, "f6_empty_denom_accumulation_positive_after": f6Seen})
